@@ -13,7 +13,7 @@
 (* VERDICT line is printed.  `cov` records which clauses had a true        *)
 (* antecedent at least once (non-vacuity).                                 *)
 (***************************************************************************)
-EXTENDS Graph, TraceData
+EXTENDS SchedOps, TraceData
 
 VARIABLES tid,      \* which recorded run
           l,        \* position in the run's trace
@@ -120,7 +120,8 @@ PrepareViol(ev) ==
      Chk("C01_SubmitOnlyIfSatisfied", auto => ReadyByGraph(W, nm, p, done))
   \cup Chk("C01_OnSequenceInBounds", auto => (InBounds(W, p) /\ ValidPoint(W, nm, p)))
   \cup Chk("C02_AtMostOncePerFlow", (auto /\ h.n > 0 /\ h.flows \cap t.flows # {}) => h.retry)
-  \cup Chk("C02_RetryBound", auto => h.n + 1 <= bound)
+  \* (not judged under injected submit-result faults: a job that starts and is then reported submit-failed)
+  \cup Chk("C02_RetryBound", (auto /\ ~Opt.faults) => h.n + 1 <= bound)
   \cup Chk("C06_HeldNeverPrepared", (id \in DOMAIN pool /\ pool[id].held) => ev.manual)
   \cup Chk("C07_NoSubmitBeyondStop", ev.manual \/ Opt.manual \/ p <= StopPt \/ (h.n > 0 /\ h.retry))
   \cup Chk("C43_NoSubmitBeyondStopPoint", ev.manual \/ Opt.manual \/ p <= StopPt \/ (h.n > 0 /\ h.retry))
@@ -194,6 +195,16 @@ MsgViol(ev) ==
   \cup Chk("C29_ImpliedAndExact",
            (ev.forced /\ ev.msg \in (StdOutsT \cup W.customs[nm])) =>
               t.outs = b.outs \cup {ev.msg} \cup ImpliedT(ev.msg))
+  \* conformance: the logged effect of process_message equals what SchedOps!MsgEffect (the step function of
+  \* Sched.tla's Process action) predicts from the logged state before, message, flag and submit number
+  \cup Chk("Conf_MsgEffect",
+           (ev.inpool /\ ~ev.forced /\ "msg" \notin ev.cx /\ ev.msg \in (StdOutsT \cup W.customs[nm]) /\ ~Opt.manual
+            /\ ev.msg # "expired") =>
+              LET eff == MsgEffect(W, nm, [st |-> b.st, outs |-> b.outs, sub |-> b.sub, efail |-> b.etry, sfail |-> b.stry],
+                                   ev.msg, ev.flag, ev.sub)
+              IN (eff.r.st = t.st /\ eff.r.outs = t.outs /\ eff.ret = ev.ret)
+                 \/ PrintT(<<"DIAG", tid, "msgeffect", l, ev.msg, ev.flag, b.st, b.outs, "predicted", eff.r.st, eff.r.outs, eff.ret,
+                             "logged", t.st, t.outs, ev.ret>>) = FALSE)
   \cup Chk("C02_FailOutputOnlyWhenNoRetry", (newfail /\ ~Opt.manual) => h.efail >= W.eretry[nm])
   \cup Chk("C02_SubmitFailOutputOnlyWhenNoRetry", (newsubfail /\ ~Opt.manual) => h.sfail >= W.sretry[nm])
 MsgCov(ev) ==
@@ -327,12 +338,13 @@ CmdDoneViol(ev) ==
           Chk("C27_ReloadProjection",
               \A i \in DOMAIN pre :
                  \/ /\ i \in SyncIds(ev)
-                    \* (a reload first lets preparing tasks finish submitting: those may move on to submitted;
+                    \* (a reload first lets preparing tasks finish submitting and processes queued job messages
+                    \*  while it waits: tasks with a job out may move on;
                     \*  it also recomputes the runahead limit and releases tasks now within it)
                     /\ LET r == SyncRec(ev, i) IN
-                          /\ (r.st = pre[i].st \/ pre[i].st = "preparing")
+                          /\ (r.st = pre[i].st \/ pre[i].st \in ActiveStatuses)
                           /\ r.flows = pre[i].flows /\ r.sub = pre[i].sub /\ r.held = pre[i].held
-                          /\ (r.outs = pre[i].outs \/ (pre[i].st = "preparing" /\ pre[i].outs \subseteq r.outs))
+                          /\ (r.outs = pre[i].outs \/ (pre[i].st \in ActiveStatuses /\ pre[i].outs \subseteq r.outs))
                           /\ r.sat = pre[i].sat
                           /\ (~pre[i].rh => ~r.rh)
                  \/ PrintT(<<"DIAG", tid, "reload", i, pre[i],
